@@ -72,7 +72,9 @@ def Frame.unpack (f : Frame) (buf : Bytes) (extract : Bool) : Frame × R Unit :=
   match (if f.ipts = .none then (.ok Ipts.none : R Ipts) else f.ipts.unpack (buf.take 8)) with
   | .error e => (f, .error e)
   | .ok i =>
-    let f1 := { f with ipts := i }
+    -- syncword, sfid and the data header are cleared before decoding (only `extract_sync_sfid` and the
+    -- non-throughput branch fill them in)
+    let f1 := { f with ipts := i, syncword := Option.none, sfid := Option.none, hdr := Option.none }
     if f.throughput then ({ f1 with data := buf }, .ok ()) else
     match hdrFmt f.alignment with
     | .error e => (f1, .error e)
